@@ -11,7 +11,7 @@
 (* The POSTCONDITION requires that the whole trace was consumed; the       *)
 (* runner decides the exit status from the JUDGE lines.                    *)
 (***************************************************************************)
-EXTENDS TauRule, TauKnown, TauIdent, TauKeys, TauEngine, Json, IOUtils, TLC
+EXTENDS TauRule, TauKnown, TauIdent, TauKeys, TauOpt, Json, IOUtils, TLC
 
 Rec == ndJsonDeserialize(IOEnv.TRACE)
 
@@ -83,22 +83,23 @@ TrOpt ==
 (* one; a difference is printed as rule "model_drift" and never counted as a violation.         *)
 (* what the engine-layer model predicts for object k on document d ("-" when not modelled: an  *)
 (* optimised object, a condition that does not parse)                                          *)
-EngOf(k, d) == IF phase = "loaded" /\ k + 1 \in DOMAIN objs /\ objs[k + 1].sw = <<>> /\ d \in DOMAIN cur.docs
+EngOf(k, d) == IF phase = "loaded" /\ k + 1 \in DOMAIN objs /\ d \in DOMAIN cur.docs
                   /\ "src" \in DOMAIN cur /\ TextOk(SrcOf(k))
-               THEN EngEval(Ast(SrcOf(k)), cur.docs[d]) ELSE "-"
+               THEN EngEvalOpt(Ast(SrcOf(k)), objs[k + 1].sw, cur.docs[d]) ELSE "-"
 WantEng == "plan" \in DOMAIN cur /\ "eng" \in DOMAIN cur.plan /\ cur.plan.eng
 EngDrift(k, d, out) ==
-  IF WantEng /\ phase = "loaded" /\ k + 1 \in DOMAIN objs /\ objs[k + 1].sw = <<>> /\ d \in DOMAIN cur.docs
-     /\ TextOk(SrcOf(k))
-  THEN LET m == EngEval(Ast(SrcOf(k)), cur.docs[d]) IN
-       IF m = "U" \/ m = out THEN TRUE
+  IF WantEng /\ phase = "loaded" /\ k + 1 \in DOMAIN objs /\ d \in DOMAIN cur.docs /\ TextOk(SrcOf(k))
+  THEN LET m == EngOf(k, d)
+           same == IF out \in {"t", "f"} THEN (m = "T") = (out = "t") ELSE m = out IN
+       IF m \in {"U", "-"} \/ same THEN TRUE
        ELSE PrintT("JUDGE " \o ToJson([l |-> l, cl |-> cl, rule |-> "model_drift",
-                                        info |-> [obj |-> k, d |-> d - 1, out |-> out, model |-> m], devs |-> <<>>]))
+                                        info |-> [obj |-> k, d |-> d - 1, out |-> out, model |-> m,
+                                                  sw |-> objs[k + 1].sw], devs |-> <<>>]))
   ELSE TRUE
 
 OutBool(o) == o = "t"
 TrMatch ==
-  /\ IsEv("match") /\ Adv
+  /\ IsEv("match") /\ Adv /\ EngDrift(e.obj, e.d + 1, e.out)
   /\ LET d == e.d + 1 v == OutBool(e.out) IN
      IF e.out \in {"t", "f"} /\ phase = "loaded" /\ e.obj + 1 \in DOMAIN objs /\ d \in DOMAIN cur.docs
         /\ v \in Allowed(e.obj, d)
@@ -109,6 +110,9 @@ TrMatch ==
                  [obj |-> e.obj, d |-> e.d, out |-> e.out,
                   lang |-> IF d \in DOMAIN cur.docs /\ HasOracle(cur) THEN SetSeq(TriAllowed(d)) ELSE <<>>,
                   eng |-> EngOf(e.obj, d),
+                  eng0 |-> IF phase = "loaded" /\ d \in DOMAIN cur.docs /\ "src" \in DOMAIN cur /\ e.obj + 1 \in DOMAIN objs /\ TextOk(SrcOf(e.obj))
+                           THEN EngEvalOpt(Ast(SrcOf(e.obj)), <<>>, cur.docs[d]) ELSE "-",
+                  den0 |-> IF DK(e.obj, d) \in DOMAIN den THEN (IF den[DK(e.obj, d)] THEN "t" ELSE "f") ELSE "-",
                   sw |-> IF e.obj + 1 \in DOMAIN objs THEN objs[e.obj + 1].sw ELSE <<>>])
           \* re-sync: an observation the oracle rejects still binds the denotation, so that later
           \* observations of the same class are compared with it
@@ -127,6 +131,9 @@ TrTri ==
                  [obj |-> e.obj, d |-> e.d, out |-> e.out,
                   lang |-> IF d \in DOMAIN cur.docs /\ HasOracle(cur) THEN SetSeq(TriAllowed(d)) ELSE <<>>,
                   eng |-> EngOf(e.obj, d),
+                  eng0 |-> IF phase = "loaded" /\ d \in DOMAIN cur.docs /\ "src" \in DOMAIN cur /\ e.obj + 1 \in DOMAIN objs /\ TextOk(SrcOf(e.obj))
+                           THEN EngEvalOpt(Ast(SrcOf(e.obj)), <<>>, cur.docs[d]) ELSE "-",
+                  den0 |-> IF DK(e.obj, d) \in DOMAIN den THEN (IF den[DK(e.obj, d)] THEN "t" ELSE "f") ELSE "-",
                   sw |-> IF e.obj + 1 \in DOMAIN objs THEN objs[e.obj + 1].sw ELSE <<>>])
           /\ UNCHANGED rvars
 
